@@ -125,6 +125,8 @@ inductive TErr
   | ragged
   /-- a recorded state that belongs to another transform, or a data shape the model does not cover -/
   | stateShape
+  /-- `ValueError("Cannot scale a sparse matrix with more than one column.")` -/
+  | sparseShape
 deriving Repr, DecidableEq
 
 /-! ## transposition between the row-major output of the spline models and columns -/
@@ -186,6 +188,14 @@ def scaleT (sqrt : Rat → Rat) (ca sa : Scale.Arg Rat) (ddof : Rat) : T Rat Rat
   fit xs := liftScale ((Scale.run sqrt xs ca sa ddof {}).map (fun r => (r.2, r.1)))
   run st xs := liftScale (Scale.run sqrt xs ca sa ddof st)
   row := scaleRow
+
+/-- `scale.register(spsparse.spmatrix)`: a sparse matrix with one column is scaled as the dense
+vector `data.toarray()[:, 0]` (same `_state`); any other width raises -/
+def callSparse (t : T Rat Rat (Scale.State Rat) TErr) (st : Option (Scale.State Rat)) (cols : List (List Rat)) :
+    Except TErr (List Rat × Scale.State Rat) :=
+  match cols with
+  | [c] => t.call st c
+  | _ => .error .sparseShape
 
 /-! ## `poly` -/
 
